@@ -229,10 +229,135 @@ func abbrevCSV(s string) []string {
 
 var _ = pool.UpdateRequest{}
 
+// c11Ageing: tracked stamps age past the window in real time (one shared
+// 21 s wait for all scenarios). Covers peers that vanish from the report but
+// keep checking in themselves, peers that are re-reported, and keep-alives
+// whose report is empty or names only unknown ids.
+func c11Ageing(ev *vlib.Evidence, n int) {
+	type scenario struct {
+		driver  string
+		s       store.Store
+		model   *vlib.RefStore
+		base    time.Time
+		pfx     string
+		peers   []string
+		checkin []bool
+		report  []string
+		trace   []string
+		dead    bool
+	}
+	scs := []*scenario{}
+	cleanups := []func(){}
+	for _, driver := range vlib.Drivers() {
+		st, cleanup, err := vlib.OpenStore(driver)
+		if err != nil {
+			panic(err)
+		}
+		cleanups = append(cleanups, cleanup)
+		for j := 0; j < n; j++ {
+			r := vlib.Rand("C11-ageing-"+driver, j)
+			sc := &scenario{driver: driver, s: st, model: vlib.NewRefStore(), base: time.Now(), pfx: fmt.Sprintf("a%d-", j)}
+			exec := func(op vlib.StoreOp) bool {
+				res := vlib.ExecStoreOp(sc.s, op, sc.base)
+				want, _, ok := vlib.ModelStoreOp(sc.model, op, sc.base, res.T0, res.T1)
+				sc.trace = append(sc.trace, fmt.Sprintf("%s -> %s", op.String(), res.Res))
+				if !ok {
+					sc.dead = true
+					ev.Inconclusive("time-class")
+					return false
+				}
+				if res.Res != want {
+					ev.Violate("ageing:"+driver+":"+op.Op, map[string]interface{}{"driver": driver, "trace": sc.trace, "got": res.Res, "want": want})
+					sc.dead = true
+					return false
+				}
+				return true
+			}
+			o := sc.pfx + "o"
+			exec(vlib.StoreOp{Op: "SetNode", ID: o, AgeSec: 0})
+			np := 3 + r.Intn(2)
+			for i := 0; i < np; i++ {
+				p := fmt.Sprintf("%sp%d", sc.pfx, i)
+				sc.peers = append(sc.peers, p)
+				exec(vlib.StoreOp{Op: "SetNode", ID: p, IsHost: true, AgeSec: vlib.Pick(r, 105, 110, 110, 0)})
+				sc.checkin = append(sc.checkin, r.Intn(2) == 0)
+			}
+			exec(vlib.StoreOp{Op: "UpdateNodePeers", ID: o, Peers: sc.peers, Block: 1})
+			switch r.Intn(4) {
+			case 0: // empty report
+			case 1:
+				sc.report = []string{"unknown-id"}
+			default:
+				for _, p := range sc.peers {
+					if r.Intn(2) == 0 {
+						sc.report = append(sc.report, p)
+					}
+				}
+			}
+			scs = append(scs, sc)
+		}
+	}
+	time.Sleep(21 * time.Second)
+	for _, sc := range scs {
+		if sc.dead {
+			continue
+		}
+		exec := func(op vlib.StoreOp) (string, bool) {
+			res := vlib.ExecStoreOp(sc.s, op, sc.base)
+			want, _, ok := vlib.ModelStoreOp(sc.model, op, sc.base, res.T0, res.T1)
+			sc.trace = append(sc.trace, fmt.Sprintf("[+21s] %s -> %s", op.String(), res.Res))
+			if !ok {
+				ev.Inconclusive("time-class")
+				return want, false
+			}
+			if res.Res != want {
+				ev.Violate("ageing:"+sc.driver+":"+op.Op, map[string]interface{}{"driver": sc.driver, "trace": sc.trace, "got": res.Res, "want": want})
+				return want, false
+			}
+			return want, true
+		}
+		okAll := true
+		for i, p := range sc.peers {
+			if sc.checkin[i] {
+				if _, ok := exec(vlib.StoreOp{Op: "UpdateNodePeers", ID: p, Block: 2}); !ok {
+					okAll = false
+				}
+			}
+		}
+		if !okAll {
+			continue
+		}
+		want, ok := exec(vlib.StoreOp{Op: "UpdateNodePeers", ID: sc.pfx + "o", Peers: sc.report, Block: 3})
+		if !ok {
+			continue
+		}
+		if _, ok := exec(vlib.StoreOp{Op: "NodePeers", ID: sc.pfx + "o"}); !ok {
+			continue
+		}
+		// a second keep-alive must not declare the forgotten peers again
+		if _, ok := exec(vlib.StoreOp{Op: "UpdateNodePeers", ID: sc.pfx + "o", Peers: nil, Block: 4}); !ok {
+			continue
+		}
+		ev.Case("ageing "+sc.driver+strings.Join(sc.trace, ";"), want != "ok inactive=")
+		ev.Count("ageing-scenarios", 1)
+		if want != "ok inactive=" {
+			ev.Count("ageing-evictions", 1)
+		}
+	}
+	if len(scs) > 0 {
+		ev.Sample(map[string]interface{}{"layer": "ageing", "driver": scs[0].driver, "trace": scs[0].trace})
+	}
+	for _, c := range cleanups {
+		c()
+	}
+}
+
 func TestC11(t *testing.T) {
 	ev := vlib.NewEvidence("C11", "exploration",
-		"store level: histories of one observer and 3-4 peers (SetNode with LastSeen ages {0,60,110,130,180,3600 s}, observer and peer keep-alives, unknown/duplicate/self ids) on both drivers vs the tracked-peer model; pool level: signed vipnode_update sessions (ids given directly or inside enode:// URIs) comparing InvalidPeers/ActivePeers/NodePeers with the model; non-trivial = at least one peer was declared invalid (store level: >=3 mutations); distinct = distinct histories")
+		"ageing: tracked stamps recorded 105-110 s old are aged past the window by one shared 21 s real wait, with peers that check in themselves without being re-reported, re-reported peers, empty and unknown-only reports, and a second keep-alive afterwards; store level: histories of one observer and 3-4 peers (SetNode with LastSeen ages {0,60,110,130,180,3600 s}, observer and peer keep-alives, unknown/duplicate/self ids) on both drivers vs the tracked-peer model; pool level: signed vipnode_update sessions (ids given directly or inside enode:// URIs) comparing InvalidPeers/ActivePeers/NodePeers with the model; non-trivial = at least one peer was declared invalid (store level: >=3 mutations); distinct = distinct histories")
 	ev.Assume("the 120 s window is only approached to ±10 s; cases longer than 5 s wall are inconclusive")
+	ageDone := make(chan struct{})
+	go func() { c11Ageing(ev, vlib.Scale(150, 2000)); close(ageDone) }()
 	n := vlib.Scale(2000, 60000)
 	parallelCases(n, 12, func(i int) {
 		r := vlib.Rand("C11-store", i)
@@ -275,5 +400,6 @@ func TestC11(t *testing.T) {
 			ev.Count("pool-histories:"+driver, 1)
 		})
 	}
+	<-ageDone
 	finish(t, ev)
 }
